@@ -159,10 +159,15 @@ def _main(a, pid, seed, mod, scratch_root, t0):
         for k, v in r['labels'].items():
             labels[k] = labels.get(k, 0) + v
     samples = []
-    for r in results:
-        for s in r['samples'][:2]:
-            if len(samples) < 12:
-                samples.append(s)
+    seen_kinds = set()
+    for rnd in range(3):
+        for r in results:
+            kind = r['spec'].get('kind')
+            if rnd == 0 and kind in seen_kinds:
+                continue
+            seen_kinds.add(kind)
+            if len(r['samples']) > rnd and len(samples) < 12:
+                samples.append(r['samples'][rnd])
     buckets = {}
     for r in results:
         for b, lst in r['failures'].items():
